@@ -1,5 +1,5 @@
 (** C07 — property theorems only. *)
-From V Require Import Base.Util Gql.Ast Peg.Peg Gen.C07_grammar_gen C07.Builder C07.Model C07.AstEq C07.Spec C07.Proofs C07.Lexical C07.Strings C07.Escapes C07.Numbers C07.Fuel C07.Shapes C07.Render C07.RenderValues C07.RenderArgs C07.RenderDirs C07.RenderSel.
+From V Require Import Base.Util Gql.Ast Peg.Peg Gen.C07_grammar_gen C07.Builder C07.Model C07.AstEq C07.Spec C07.Proofs C07.Lexical C07.Strings C07.Escapes C07.Numbers C07.Fuel C07.Shapes C07.Render C07.RenderValues C07.RenderArgs C07.RenderDirs C07.RenderValid C07.RenderSel C07.RenderDefs.
 From V Require Import Peg.PegShape.
 From V Require Import Peg.PegProps.
 
@@ -299,6 +299,18 @@ Theorem C07_parse_render_selection_set : forall ss, wf_ss ss = true ->
     let i := slen pre in
     pair_rule (T i) = R_SelectionSet
     /\ runs gql_grammar true ANon (Call R_SelectionSet) (ss_text ss ++ rest) i (Ok (rest, (i + slen (ss_text ss))%N, [T i]))
+    /\ validate_pair inp (T i) = VOk
     /\ exists ss', build_selection_set inp file (T i) = BOk ss' /\ ss_erase ss' = erase_ss ss.
 Proof. exact parse_render_selection_set. Qed.
 Print Assumptions C07_parse_render_selection_set.
+
+(** parse_render (executable documents): leading trivia, then anonymous queries, operations (type, optional name,
+    variable definitions with types / default values / directives, directives) and fragment definitions, each
+    followed by its trivia, with selection sets, arguments and values of any depth inside, whitespace trivia in every
+    gap ([wf_doc] computable): the whole model parser -- pest parse, validation pass, builder -- returns a document
+    whose position-erased form is the erasure of the rendering *)
+Theorem C07_parse_render_operation_document : forall g0 defs file, wf_doc g0 defs = true ->
+  exists doc, parse_operation_document file (doc_text g0 defs) = POk doc
+              /\ map def_erase (od_defs doc) = map erase_def defs.
+Proof. exact parse_render_operation_document. Qed.
+Print Assumptions C07_parse_render_operation_document.
